@@ -51,7 +51,7 @@ loop:
 			break loop
 
 		// flag
-		case !cmd.DisableFlagParsing && strings.HasPrefix(arg, "-") && (fs.IsInterspersed() || len(inPositionals) == 0):
+		case !cmd.DisableFlagParsing && strings.HasPrefix(arg, "-") && arg != "-" && (fs.IsInterspersed() || len(inPositionals) == 0):
 			LOG.Printf("arg %#v is a flag\n", arg)
 			inArgs = append(inArgs, arg)
 			inFlag = fs.LookupArg(arg)
